@@ -169,6 +169,8 @@ inductive Err where
   | childDuplicate
   /-- "child already received certificate(s)" -/
   | childHasCerts
+  /-- "child already sees another resource class under that name" (fix 02d8de59) -/
+  | childNameClash
   /-- `KeyUseNoIssuedCert` -/
   | noIssuedCert
   /-- `CaParentDuplicateName` -/
@@ -249,6 +251,12 @@ def unsuspendClasses (s : Ca) (ch : Handle) (c : Child) (now1d na : Int) :
 /-- `find_parent_rc` -/
 def Ca.findParentRc (s : Ca) (p : Handle) (parentRcn : Rcn) : Option (Rcn × Rc) :=
   s.classes.find? fun q => q.2.parent = p ∧ q.2.parentRcn = parentRcn
+
+/-- The test of `process_child_resource_class_name_mapping` (certauth.rs:1340-1346, fix 02d8de59):
+some class other than `n` - an existing one or one named in the child's mapping - already appears
+to the child under the name `m`. -/
+def Ca.nameTaken (s : Ca) (c : Child) (n m : Rcn) : Bool :=
+  ((keys s.classes ++ keys c.rcnMap).filter (· ≠ n)).any fun q => c.nameForChild q = m
 
 /-- The entitlement loop of `process_update_entitlements` (certauth.rs:1924-1978). -/
 def entitlementLoop (s : Ca) (p : Handle) (now : Int) :
@@ -346,7 +354,12 @@ def Ca.process (s : Ca) : Cmd → Except Err (List Ev)
   | .childMapping ch n m =>
     match get s.children ch with
     | none => .error .unknownChild
-    | some c => if !(c.issuedKeys n).isEmpty then .error .childHasCerts else .ok [.childMapping ch n m]
+    | some c =>
+      if !(c.issuedKeys n).isEmpty then .error .childHasCerts
+      -- certauth.rs:1337-1352 (fix 02d8de59): the names under which the child sees the classes stay
+      -- distinct - no other class (existing, or named in a mapping) may appear under `m`
+      else if s.nameTaken c n m then .error .childNameClash
+      else .ok [.childMapping ch n m]
   | .childCertify ch childRcn ki limit na =>
     match get s.children ch with
     | none => .error .unknownChild
@@ -359,7 +372,10 @@ def Ca.process (s : Ca) : Cmd → Except Err (List Ev)
     | some c =>
       let myRcn := c.nameInParent childRcn
       if !(get s.classes myRcn).isSome then .ok []
-      else if !c.isIssued ki then .error .noIssuedCert
+      else if !c.isIssued ki then
+        -- certauth.rs:1476-1487 (fix 7be8c4c6): a key this CA marked revoked itself - the request is
+        -- confirmed, nothing to do; a key the child never used is refused
+        if get c.usedKeys ki = some .revoked then .ok [] else .error .noIssuedCert
       else .ok [.childKeyRevoked ch myRcn ki, .childCerts myRcn { removed := [ki] }]
   | .childRemove ch =>
     match get s.children ch with
@@ -432,6 +448,25 @@ def Ca.process (s : Ca) : Cmd → Except Err (List Ev)
         | some rc => rc.keys.current.isSome
         | none => false)).map fun u => .products u.1 u.2)
 
+/-- `process` of the tree BEFORE the fixes 7be8c4c6 and 02d8de59 for the two commands they
+changed (counter-models of F-C02-2 / F-C01-3 / F-C08-6 and of F-C02-3 / F-C03-2; says nothing about
+the current tree): a revocation request for a key that is not in use is refused even when this CA
+revoked the key itself, and a class-name mapping is accepted whatever name it gives the child. -/
+def Ca.pinnedProcess (s : Ca) : Cmd → Except Err (List Ev)
+  | .childMapping ch n m =>
+    match get s.children ch with
+    | none => .error .unknownChild
+    | some c => if !(c.issuedKeys n).isEmpty then .error .childHasCerts else .ok [.childMapping ch n m]
+  | .childRevokeKey ch childRcn ki =>
+    match get s.children ch with
+    | none => .error .unknownChild
+    | some c =>
+      let myRcn := c.nameInParent childRcn
+      if !(get s.classes myRcn).isSome then .ok []
+      else if !c.isIssued ki then .error .noIssuedCert
+      else .ok [.childKeyRevoked ch myRcn ki, .childCerts myRcn { removed := [ki] }]
+  | c => s.process c
+
 /-- A system state: the aggregate and its published-object sets. -/
 structure Sys where
   ca : Ca := {}
@@ -470,5 +505,26 @@ def Sys.next (s : Sys) (c : Cmd) : Sys :=
 def Sys.run (s : Sys) : List Cmd → Sys
   | [] => s
   | c :: cs => (s.next c).run cs
+
+/-- `Sys.exec` over the pinned `process`. -/
+def Sys.pinnedExec (s : Sys) (c : Cmd) : Outcome :=
+  match s.ca.pinnedProcess c with
+  | .error e => .refused e
+  | .ok evs =>
+    match s.ca.applyAll evs with
+    | none => .panic
+    | some ca' =>
+      match s.objs.stepAll evs with
+      | .error e => .listenerError e
+      | .ok o' => .stored evs ⟨ca', o'⟩
+
+def Sys.pinnedNext (s : Sys) (c : Cmd) : Sys :=
+  match s.pinnedExec c with
+  | .stored _ s' => s'
+  | _ => s
+
+def Sys.pinnedRun (s : Sys) : List Cmd → Sys
+  | [] => s
+  | c :: cs => (s.pinnedNext c).pinnedRun cs
 
 end KM.CaK
